@@ -1,3 +1,4 @@
+import OrsoVerif.Generated.DisplayExpr
 /-!
 # C18 — rendering a DataFrame as a text table (`orso/display.py`)
 
@@ -13,11 +14,139 @@ Import-free executable model of `ascii_table` **as repaired** (see `findings/C18
 4. column-width arithmetic (`:342-363`), box / header / type / data lines (`:366-417`) and the
    final per-line truncation to the display width (`:419-422`).
 
+The control-flow skeleton is written by hand; the **arithmetic** (thresholds, guards, label shifts,
+width formulas, paddings, divisors) enters through a record `Arith`.  `srcArith` is built from
+`Generated/DisplayExpr.lean`, i.e. from the expressions the source contains on this run (translated
+from the AST by `harness/extractors/displayexpr.py`); it is what the driver executes.  `specArith` is
+the reference arithmetic the lemmas are proved for; `Props/C18.lean` proves, expression by expression,
+that the two coincide (`src_*` theorems) — so a changed operator or constant in `display.py` breaks a
+named theorem.  `pinnedArith` keeps the two pinned defects for the counterexample lemmas.
+
 Parameters (compared by the harness, not modelled): Python's `str()` of floats, decimals, dates,
 containers and arbitrary objects (they arrive as text), `len(str(v))` of those values, and the
 East-Asian width table behind `character_width` (the function `cw`).
 -/
 namespace Display
+
+abbrev Str := List Char
+
+def natStr (n : Nat) : Str := Nat.toDigits 10 n
+def intStr (i : Int) : Str := if i < 0 then '-' :: natStr i.natAbs else natStr i.natAbs
+
+/-! ## 0. The arithmetic of `display.py` as a parameter -/
+
+/-- Every arithmetic expression of `ascii_table`, `trunc_printable`, `markdown` and the interval
+formatter that the property depends on.  Argument order is given in the comments. -/
+@[ext] structure Arith where
+  headTail : Nat → Nat → Bool              -- n limit        `table.rowcount >= 2*limit + 1`
+  lazyLenInit : Nat                        --                `lazy_length = 0`
+  lazyLenUpd : Nat → Nat → Nat             -- ll len(head)   `lazy_length += len(head) + 1`
+  lazyHeadOnly : Nat → Nat                 -- t.rowcount     `lazy_length = t.rowcount` (head-only)
+  idxLazy : Nat → Nat                      -- ll             `len(str(lazy_length + 1)) + 2`
+  idxEager : Nat → Nat                     -- n              `len(str(len(table))) + 2`
+  colWidth : Nat → Nat → Nat → Nat → Nat   -- cw ctw dw max  `min(max(cw, ctw, dw), max_column_width)`
+  eagerSplit : Nat → Nat → Bool            -- n limit        `table.rowcount > 2*limit`
+  eagerAtEll : Nat → Nat → Bool            -- i limit        `i == limit`
+  eagerInTail : Nat → Nat → Bool           -- i limit        `i >= limit`
+  eagerShift : Nat → Nat → Nat → Nat → Nat -- i n tlen limit `i += table.rowcount - 2*limit`
+  eagerLabel : Nat → Nat                   -- i              `str(i + 1)`
+  labelPad : Nat → Nat                     -- index_width    `.rjust(index_width - 1)`
+  lazyOffset0 : Nat                        --                `offset = 1`
+  lazyEll : Nat → Nat → Nat → Bool         -- i limit ll     `i == limit and lazy_length > 2*limit`
+  lazyOffsetUpd : Nat → Nat → Nat → Nat    -- offset ll lim  `offset += lazy_length - 2*limit`
+  lazyLabel : Nat → Nat → Nat              -- i offset       `str(i + offset)`
+  truncStop : Nat → Nat → Bool             -- offset width   `offset >= width`
+  truncPad : Nat → Nat → Nat               -- width offset   `" " * (width - offset)`
+  truncNl : Nat → Nat                      -- offset         `offset += 1` (line break)
+  mdIdx : Nat → Nat                        -- n              markdown `len(str(len(table)))`
+  mdColWidth : Nat → Nat → Nat → Nat       -- cw dw max      markdown `min(max(cw, dw), max_column_width)`
+  mdHeadPad : Nat → Nat                    -- index_width    markdown `" " * (index_width - 2)`
+  mdSepLen : Nat → Nat                     -- index_width    markdown `"-" * index_width`
+  mdLabel : Nat → Nat                      -- i              markdown `str(i + 1)`
+  mdLabelPad : Nat → Nat                   -- index_width    markdown `.rjust(index_width - 1)`
+  mdFloor : Nat                            --                markdown data-width floor `[4]`
+  hourDiv : Int                            --                `divmod(seconds, 3600)`
+  minuteDiv : Int                          --                `divmod(seconds, 60)`
+  monthDiv : Int                           --                `divmod(months, 12)`
+
+/-- `len(str(x))` for the non-negative integers the width formulas are applied to. -/
+def digitsI (x : Int) : Int := ((natStr x.toNat).length : Int)
+
+open Gen.DisplayExpr in
+/-- **The arithmetic the source contains now** (Python ints are Lean `Int`s; the skeleton works on
+naturals — counts and widths — so results are brought back with `toNat`, which is also what
+`" " * negative` and `str.rjust(negative)` do). -/
+def srcArith : Arith where
+  headTail n limit := decide (headTailTest (n : Int) (limit : Int))
+  lazyLenInit := lazyLenInit.toNat
+  lazyLenUpd ll h := (lazyLenUpdate (ll : Int) (h : Int)).toNat
+  lazyHeadOnly tlen := (lazyHeadOnlyLen (tlen : Int)).toNat
+  idxLazy ll := (idxWidthLazy digitsI (ll : Int)).toNat
+  idxEager n := (idxWidthEager digitsI (n : Int)).toNat
+  colWidth cw ctw dw m := (Gen.DisplayExpr.colWidth (cw : Int) (ctw : Int) (dw : Int) (m : Int)).toNat
+  eagerSplit n limit := decide (eagerSplitTest (n : Int) (limit : Int))
+  eagerAtEll i limit := decide (eagerEllipsisTest (i : Int) (limit : Int))
+  eagerInTail i limit := decide (eagerTailTest (i : Int) (limit : Int))
+  eagerShift i n tlen limit := (Gen.DisplayExpr.eagerShift (i : Int) (n : Int) (tlen : Int) (limit : Int)).toNat
+  eagerLabel i := (Gen.DisplayExpr.eagerLabel (i : Int)).toNat
+  labelPad iw := (Gen.DisplayExpr.labelPad (iw : Int)).toNat
+  lazyOffset0 := lazyOffsetInit.toNat
+  lazyEll i limit ll := decide (lazyEllipsisTest (i : Int) (limit : Int) (ll : Int))
+  lazyOffsetUpd off ll limit := (lazyOffsetUpdate (off : Int) (ll : Int) (limit : Int)).toNat
+  lazyLabel i off := (Gen.DisplayExpr.lazyLabel (i : Int) (off : Int)).toNat
+  truncStop off w := decide (truncStopTest (off : Int) (w : Int))
+  truncPad w off := (Gen.DisplayExpr.truncPad (w : Int) (off : Int)).toNat
+  truncNl off := (truncNewlineStep (off : Int)).toNat
+  mdIdx n := (mdIdxWidth digitsI (n : Int)).toNat
+  mdColWidth cw dw m := (Gen.DisplayExpr.mdColWidth (cw : Int) (dw : Int) (m : Int)).toNat
+  mdHeadPad iw := (Gen.DisplayExpr.mdHeadPad (iw : Int)).toNat
+  mdSepLen iw := (Gen.DisplayExpr.mdSepLen (iw : Int)).toNat
+  mdLabel i := (Gen.DisplayExpr.mdLabel (i : Int)).toNat
+  mdLabelPad iw := (Gen.DisplayExpr.mdLabelPad (iw : Int)).toNat
+  mdFloor := Gen.DisplayExpr.mdFloor.toNat
+  hourDiv := Gen.DisplayExpr.hourDiv
+  minuteDiv := Gen.DisplayExpr.minuteDiv
+  monthDiv := Gen.DisplayExpr.monthDiv
+
+/-- **The reference arithmetic** (what `display.py` is meant to compute, on naturals). -/
+def specArith : Arith where
+  headTail n limit := decide (2 * limit + 1 ≤ n)
+  lazyLenInit := 0
+  lazyLenUpd ll h := ll + (h + 1)
+  lazyHeadOnly tlen := tlen
+  idxLazy ll := (natStr (ll + 1)).length + 2
+  idxEager n := (natStr n).length + 2
+  colWidth cw ctw dw m := min (max (max cw ctw) dw) m
+  eagerSplit n limit := decide (2 * limit < n)
+  eagerAtEll i limit := decide (i = limit)
+  eagerInTail i limit := decide (limit ≤ i)
+  eagerShift i n _ limit := i + n - 2 * limit
+  eagerLabel i := i + 1
+  labelPad iw := iw - 1
+  lazyOffset0 := 1
+  lazyEll i limit ll := decide (i = limit ∧ 2 * limit < ll)
+  lazyOffsetUpd off ll limit := off + ll - 2 * limit
+  lazyLabel i off := i + off
+  truncStop off w := decide (w ≤ off)
+  truncPad w off := w - off
+  truncNl off := off + 1
+  mdIdx n := (natStr n).length
+  mdColWidth cw dw m := min (max cw dw) m
+  mdHeadPad iw := iw - 2
+  mdSepLen iw := iw
+  mdLabel i := i + 1
+  mdLabelPad iw := iw - 1
+  mdFloor := 4
+  hourDiv := 3600
+  minuteDiv := 60
+  monthDiv := 12
+
+/-- The two arithmetic defects of the pinned tree: the eager label shift uses `t.rowcount` (the cut
+frame) and `lazy_length` stays 0 in head-only mode. -/
+def pinnedArith : Arith :=
+  { specArith with
+    eagerShift := fun i _ tlen limit => i + (tlen - 2 * limit)
+    lazyHeadOnly := fun _ => 0 }
 
 /-! ## 1. Row selection -/
 
@@ -48,30 +177,29 @@ def dfHead (rows : List α) (size : Nat) : List α := dfSlice rows 0 (some size)
 def dfTail (rows : List α) (size : Nat) : List α := dfSlice rows (0 - (size : Int)) (some size)
 
 /-- The cut frame `t` of an eager table (`display.py:183-203`, `is_lazy = False`). -/
-def eagerCut (rows : List α) (limit : Nat) (tt : Bool) : List α :=
+def eagerCut (A : Arith) (rows : List α) (limit : Nat) (tt : Bool) : List α :=
   if 0 < limit ∧ tt = false then dfSlice rows 0 (some limit)                 -- :187
   else if 0 < limit ∧ tt = true then
-    if 2 * limit + 1 ≤ rows.length then dfHead rows limit ++ dfTail rows limit   -- :190-191
+    if A.headTail rows.length limit then dfHead rows limit ++ dfTail rows limit   -- :190-191
     else rows                                                                     -- :200-201
   else rows                                                                       -- :202-203
 
 /-- The lines produced for row `i` of the cut frame of an eager table (`display.py:403-416`).
-`n` = `table.rowcount`, `tlen` = `t.rowcount`; `fixed = true` is the repaired arithmetic
-(`i += table.rowcount - 2*limit`), `fixed = false` the pinned one (`t.rowcount`). -/
-def eagerLineAt (n tlen limit : Nat) (tt fixed : Bool) (i : Nat) (row : α) : List (Line α) :=
-  if tt = true ∧ 2 * limit < n then
-    (if i = limit then [Line.ellipsis] else []) ++
-      [Line.data ((if limit ≤ i then i + ((if fixed then n else tlen) - 2 * limit) else i) + 1) row]
-  else [Line.data (i + 1) row]
+`n` = `table.rowcount`, `tlen` = `t.rowcount`. -/
+def eagerLineAt (A : Arith) (n tlen limit : Nat) (tt : Bool) (i : Nat) (row : α) : List (Line α) :=
+  if tt = true ∧ A.eagerSplit n limit = true then
+    (if A.eagerAtEll i limit then [Line.ellipsis] else []) ++
+      [Line.data (A.eagerLabel (if A.eagerInTail i limit then A.eagerShift i n tlen limit else i)) row]
+  else [Line.data (A.eagerLabel i) row]
 
 /-- `for i, row in enumerate(t)` of the eager branch. -/
-def eagerGo (n tlen limit : Nat) (tt fixed : Bool) : Nat → List α → List (Line α)
+def eagerGo (A : Arith) (n tlen limit : Nat) (tt : Bool) : Nat → List α → List (Line α)
   | _, [] => []
-  | i, row :: rest => eagerLineAt n tlen limit tt fixed i row ++ eagerGo n tlen limit tt fixed (i + 1) rest
+  | i, row :: rest => eagerLineAt A n tlen limit tt i row ++ eagerGo A n tlen limit tt (i + 1) rest
 
-def eagerLines (rows : List α) (limit : Nat) (tt fixed : Bool) : List (Line α) :=
-  let t := eagerCut rows limit tt
-  eagerGo rows.length t.length limit tt fixed 0 t
+def eagerLines (A : Arith) (rows : List α) (limit : Nat) (tt : Bool) : List (Line α) :=
+  let t := eagerCut A rows limit tt
+  eagerGo A rows.length t.length limit tt 0 t
 
 /-- `collections.deque(maxlen=m).append(x)`. -/
 def dequePush (maxlen : Nat) (d : List α) (x : α) : List α :=
@@ -80,42 +208,43 @@ def dequePush (maxlen : Nat) (d : List α) (x : α) : List α :=
 /-- The cut frame and `lazy_length` of a lazily backed table (`display.py:184-186, 192-199`).
 `rows` is what the generator will yield.  `islice` takes the head; the `for … enumerate` loop
 runs over the rows that REMAIN, pushing into a bounded deque, and leaves `lazy_length` at the
-index of the last remaining row (0, its initial value, when none remain — which is what
-truncated subtraction gives); then `lazy_length += len(head) + 1`. -/
-def lazySelect (rows : List α) (limit : Nat) (tt : Bool) : List α × Nat :=
+index of the last remaining row (its initial value when none remain); then
+`lazy_length += len(head) + 1`. -/
+def lazySelect (A : Arith) (rows : List α) (limit : Nat) (tt : Bool) : List α × Nat :=
   if 0 < limit ∧ tt = false then
     let t := rows.take limit
-    (t, t.length)                      -- repaired: `lazy_length = t.rowcount` (pinned: stays 0)
+    (t, A.lazyHeadOnly t.length)
   else if 0 < limit ∧ tt = true then
     let head := rows.take limit
     let rest := rows.drop limit
     let tail := rest.foldl (dequePush limit) []
-    (head ++ tail, (rest.length - 1) + head.length + 1)
-  else (rows, 0)
+    let ll := if rest.isEmpty then A.lazyLenInit else rest.length - 1
+    (head ++ tail, A.lazyLenUpd ll head.length)
+  else (rows, A.lazyLenInit)
 
 /-- `for i, row in enumerate(t)` of the lazy branch, with the running `offset` (`display.py:388-401`). -/
-def lazyGo (limit ll : Nat) : Nat → Nat → List α → List (Line α)
+def lazyGo (A : Arith) (limit ll : Nat) : Nat → Nat → List α → List (Line α)
   | _, _, [] => []
   | i, offset, row :: rest =>
-    if i = limit ∧ 2 * limit < ll then
-      Line.ellipsis :: Line.data (i + (offset + (ll - 2 * limit))) row
-        :: lazyGo limit ll (i + 1) (offset + (ll - 2 * limit)) rest
-    else Line.data (i + offset) row :: lazyGo limit ll (i + 1) offset rest
+    if A.lazyEll i limit ll then
+      Line.ellipsis :: Line.data (A.lazyLabel i (A.lazyOffsetUpd offset ll limit)) row
+        :: lazyGo A limit ll (i + 1) (A.lazyOffsetUpd offset ll limit) rest
+    else Line.data (A.lazyLabel i offset) row :: lazyGo A limit ll (i + 1) offset rest
 
-def lazyLines (rows : List α) (limit : Nat) (tt : Bool) : List (Line α) :=
-  lazyGo limit (lazySelect rows limit tt).2 0 1 (lazySelect rows limit tt).1
+def lazyLines (A : Arith) (rows : List α) (limit : Nat) (tt : Bool) : List (Line α) :=
+  lazyGo A limit (lazySelect A rows limit tt).2 0 A.lazyOffset0 (lazySelect A rows limit tt).1
 
 /-- The cut frame `t`. -/
-def cutRows (rows : List α) (limit : Nat) (tt lazy : Bool) : List α :=
-  if lazy then (lazySelect rows limit tt).1 else eagerCut rows limit tt
+def cutRows (A : Arith) (rows : List α) (limit : Nat) (tt lazy : Bool) : List α :=
+  if lazy then (lazySelect A rows limit tt).1 else eagerCut A rows limit tt
 
-/-- Data and ellipsis lines of the (repaired) table, in order. -/
-def visibleRows (rows : List α) (limit : Nat) (tt lazy : Bool) : List (Line α) :=
-  if lazy then lazyLines rows limit tt else eagerLines rows limit tt true
+/-- Data and ellipsis lines of the table, in order. -/
+def visibleRows (A : Arith) (rows : List α) (limit : Nat) (tt lazy : Bool) : List (Line α) :=
+  if lazy then lazyLines A rows limit tt else eagerLines A rows limit tt
 
 /-- Index form: the frame has `n` rows, a row is identified by its 0-based position. -/
-def visible (n limit : Nat) (tt lazy : Bool) : List (Line Nat) :=
-  visibleRows (List.range n) limit tt lazy
+def visible (A : Arith) (n limit : Nat) (tt lazy : Bool) : List (Line Nat) :=
+  visibleRows A (List.range n) limit tt lazy
 
 /-- Reference labelling: consecutive labels starting at `k`. -/
 def labelFrom : Nat → List α → List (Line α)
@@ -128,14 +257,9 @@ def isEllipsis : Line α → Bool
 
 /-! ## 2. Text primitives -/
 
-abbrev Str := List Char
-
-def natStr (n : Nat) : Str := Nat.toDigits 10 n
-def intStr (i : Int) : Str := if i < 0 then '-' :: natStr i.natAbs else natStr i.natAbs
-
 /-- width of the index column (`display.py:206`). -/
-def indexWidth (n limit : Nat) (tt lazy : Bool) (rows : List α) : Nat :=
-  if lazy then (natStr ((lazySelect rows limit tt).2 + 1)).length + 2 else (natStr n).length + 2
+def indexWidth (A : Arith) (n limit : Nat) (tt lazy : Bool) (rows : List α) : Nat :=
+  if lazy then A.idxLazy (lazySelect A rows limit tt).2 else A.idxEager n
 
 def spaces (n : Nat) : Str := List.replicate n ' '
 def ljust (w : Nat) (s : Str) : Str := s ++ spaces (w - s.length)
@@ -191,20 +315,20 @@ def pwidth (s : Str) : Nat := (scan false s).1
 
 /-- The loop of `trunc_printable(value, width, full_line)` (`display.py:314-338`); the emitted
 text is only ever appended to, so it is returned directly. -/
-def truncGo (cw : Char → Nat) (width : Nat) (full : Bool) : Str → Nat → Bool → Str
-  | [], offset, _ => T_OFF ++ (if full then spaces (width - offset) else [])
+def truncGo (A : Arith) (cw : Char → Nat) (width : Nat) (full : Bool) : Str → Nat → Bool → Str
+  | [], offset, _ => T_OFF ++ (if full then spaces (A.truncPad width offset) else [])
   | c :: cs, offset, ign =>
-    if c = '\n' then T_CRLF ++ ['↵'] ++ T_VARCHAR ++ truncGo cw width full cs (offset + 1) ign
-    else if c = '\r' then truncGo cw width full cs offset ign
+    if c = '\n' then T_CRLF ++ ['↵'] ++ T_VARCHAR ++ truncGo A cw width full cs (A.truncNl offset) ign
+    else if c = '\r' then truncGo A cw width full cs offset ign
     else
       let ign1 := ign || isEsc c
       let offset1 := if ign1 then offset else offset + cw c
       let ign2 := if ign1 && c == 'm' then false else ign1
-      if !ign2 && decide (width ≤ offset1) then c :: T_OFF
-      else c :: truncGo cw width full cs offset1 ign2
+      if !ign2 && A.truncStop offset1 width then c :: T_OFF
+      else c :: truncGo A cw width full cs offset1 ign2
 
-def truncPrintable (cw : Char → Nat) (value : Str) (width : Nat) (full : Bool) : Str :=
-  truncGo cw width full value 0 false
+def truncPrintable (A : Arith) (cw : Char → Nat) (value : Str) (width : Nat) (full : Bool) : Str :=
+  truncGo A cw width full value 0 false
 
 /-! ## 3. UTF-8 decoding (`bytes.decode("utf-8", errors=…)`, CPython's error spans) -/
 
@@ -287,7 +411,8 @@ inductive Cell where
   | date (d : Str) (slen : Nat)
   | bytes (b : List UInt8) (slen : Nat)
   | dict (kvs : List (Str × Str)) (slen : Nat)
-  | interval (parts : List Str) (slen : Nat)
+  | interval (parts : List Str) (slen : Nat)                  -- fractional seconds: the pieces are parameters
+  | intervalInt (months days secs : Int) (slen : Nat)         -- whole seconds: the pieces are computed
   | list (items : List Str) (slen : Nat)
   | other (s : Str)                        -- everything else: `str(value)`
   deriving Repr
@@ -307,23 +432,53 @@ def listText (items : List Str) : Str :=
 
 def intervalText (parts : List Str) : Str := T_INTERVAL ++ joinWith [' '] parts ++ T_OFF
 
+/-- The decomposition of an interval (`display.py:281-284`): `hours, seconds = divmod(seconds, 3600)`,
+`minutes, seconds = divmod(seconds, 60)`, `years, months = divmod(months, 12)`.  Python's `divmod` with a
+positive divisor is floor division, which is Lean's `/` and `%` on `Int` for a positive divisor. -/
+structure Ymdhms where
+  years : Int
+  months : Int
+  hours : Int
+  minutes : Int
+  seconds : Int
+  deriving Repr, DecidableEq
+
+def splitInterval (A : Arith) (months secs : Int) : Ymdhms :=
+  let hours := secs / A.hourDiv
+  let s1 := secs % A.hourDiv
+  let minutes := s1 / A.minuteDiv
+  let s2 := s1 % A.minuteDiv
+  { years := months / A.monthDiv, months := months % A.monthDiv, hours := hours, minutes := minutes, seconds := s2 }
+
+/-- The text pieces (`display.py:285-297`): a piece is written only when its value is non-zero;
+whole seconds are formatted by `{seconds:.2f}` as `N.00s`. -/
+def intervalParts (A : Arith) (months days secs : Int) : List Str :=
+  let p := splitInterval A months secs
+  (if p.years ≠ 0 then [intStr p.years ++ ['y']] else [])
+  ++ (if p.months ≠ 0 then [intStr p.months ++ ['m', 'o']] else [])
+  ++ (if days ≠ 0 then [intStr days ++ ['d']] else [])
+  ++ (if p.hours ≠ 0 then [intStr p.hours ++ ['h']] else [])
+  ++ (if p.minutes ≠ 0 then [intStr p.minutes ++ ['m']] else [])
+  ++ (if p.seconds ≠ 0 then [intStr p.seconds ++ ['.', '0', '0', 's']] else [])
+
 /-- `type_formatter(value, width, type_)` (`display.py:235-307`). -/
-def formatCell (cw : Char → Nat) (strict : Bool) (c : Cell) (w : Nat) : Except Err Str :=
+def formatCell (A : Arith) (cw : Char → Nat) (strict : Bool) (c : Cell) (w : Nat) : Except Err Str :=
   match c with
   | .null => .ok (T_NULL ++ (rjust w nullStr).take w ++ T_OFF)
   | .bool b => .ok (T_CONST ++ (rjust w (boolStr b)).take w ++ T_OFF)
   | .int i => .ok (T_INTEGER ++ (rjust w (intStr i)).take w ++ T_OFF)
   | .num s _ => .ok (T_FLOAT ++ (rjust w s).take w ++ T_OFF)
-  | .text s => .ok (T_VARCHAR ++ truncPrintable cw (ljust w s) w true ++ T_OFF)
-  | .datetime d t _ => .ok (T_DATE ++ truncPrintable cw (rjust w (d ++ [' '] ++ T_TIME ++ t)) w true ++ T_OFF)
-  | .date d _ => .ok (T_DATE ++ truncPrintable cw (rjust w d) w true ++ T_OFF)
+  | .text s => .ok (T_VARCHAR ++ truncPrintable A cw (ljust w s) w true ++ T_OFF)
+  | .datetime d t _ => .ok (T_DATE ++ truncPrintable A cw (rjust w (d ++ [' '] ++ T_TIME ++ t)) w true ++ T_OFF)
+  | .date d _ => .ok (T_DATE ++ truncPrintable A cw (rjust w d) w true ++ T_OFF)
   | .bytes b _ =>
     match utf8Decode strict b with
-    | .ok s => .ok (T_BLOB ++ truncPrintable cw (ljust w s) w true ++ T_OFF)
+    | .ok s => .ok (T_BLOB ++ truncPrintable A cw (ljust w s) w true ++ T_OFF)
     | .error e => .error e
-  | .dict kvs _ => .ok (truncPrintable cw (dictText kvs) w true)
-  | .interval parts _ => .ok (truncPrintable cw (intervalText parts) w true)
-  | .list items _ => .ok (truncPrintable cw (listText items) w true)
+  | .dict kvs _ => .ok (truncPrintable A cw (dictText kvs) w true)
+  | .interval parts _ => .ok (truncPrintable A cw (intervalText parts) w true)
+  | .intervalInt months days secs _ => .ok (truncPrintable A cw (intervalText (intervalParts A months days secs)) w true)
+  | .list items _ => .ok (truncPrintable A cw (listText items) w true)
   | .other s => .ok ((ljust w s).take w)
 
 /-- `len(str(value))` as seen by `calculate_data_width` (`None` is skipped). -/
@@ -338,6 +493,7 @@ def cellSlen : Cell → Nat
   | .bytes _ n => n
   | .dict _ n => n
   | .interval _ n => n
+  | .intervalInt _ _ _ n => n
   | .list _ n => n
   | .other s => s.length
 
@@ -365,10 +521,11 @@ def dataWidth (col : List Cell) : Nat := col.foldl (fun m c => max m (cellSlen c
 def column (t : List (List Cell)) (i : Nat) : List Cell := t.filterMap (fun r => r[i]?)
 
 /-- `min(max(cw, ctw, dw), max_column_width)` per column (`display.py:342-363`). -/
-def colWidthsGo (showTypes : Bool) (maxCol : Nat) (t : List (List Cell)) : Nat → List Str → List Str → List Nat
+def colWidthsGo (A : Arith) (showTypes : Bool) (maxCol : Nat) (t : List (List Cell)) :
+    Nat → List Str → List Str → List Nat
   | i, n :: ns, ty :: tys =>
-    min (max (max n.length (if showTypes then ty.length else 0)) (dataWidth (column t i))) maxCol
-      :: colWidthsGo showTypes maxCol t (i + 1) ns tys
+    A.colWidth n.length (if showTypes then ty.length else 0) (dataWidth (column t i)) maxCol
+      :: colWidthsGo A showTypes maxCol t (i + 1) ns tys
   | _, _, _ => []
 
 def border (l m r fill : Char) (iw : Nat) (ws : List Nat) : Str :=
@@ -384,18 +541,18 @@ def zipWithTrunc {β γ : Type} (f : α → β → γ) : List α → List β →
 def headerLine (token : Str) (iw : Nat) (vs : List Str) (ws : List Nat) : Str :=
   ['│'] ++ spaces iw ++ ['│', ' '] ++ joinWith [' ', '│', ' '] (zipWithTrunc (headCell token) vs ws) ++ [' ', '│']
 
-def formatRow (cw : Char → Nat) (strict : Bool) : List Cell → List Nat → Except Err (List Str)
+def formatRow (A : Arith) (cw : Char → Nat) (strict : Bool) : List Cell → List Nat → Except Err (List Str)
   | c :: cs, w :: ws =>
-    match formatCell cw strict c w with
+    match formatCell A cw strict c w with
     | .error e => .error e
     | .ok s =>
-      match formatRow cw strict cs ws with
+      match formatRow A cw strict cs ws with
       | .error e => .error e
       | .ok rest => .ok (s :: rest)
   | _, _ => .ok []
 
-def dataLine (iw label : Nat) (cells : List Str) : Str :=
-  ['│'] ++ T_TYPE ++ rjust (iw - 1) (natStr label) ++ T_OFF ++ [' ', '│', ' ']
+def dataLine (A : Arith) (iw label : Nat) (cells : List Str) : Str :=
+  ['│'] ++ T_TYPE ++ rjust (A.labelPad iw) (natStr label) ++ T_OFF ++ [' ', '│', ' ']
     ++ joinWith [' ', '│', ' '] cells ++ [' ', '│']
 
 def ellipsisLine (lazy : Bool) : Str :=
@@ -404,31 +561,32 @@ def ellipsisLine (lazy : Bool) : Str :=
 /-- A rendered line, tagged: `true` for the box lines (everything but the ellipsis). -/
 abbrev Tagged := Bool × Str
 
-def bodyLines (cw : Char → Nat) (p : Params) (iw : Nat) (ws : List Nat) :
+def bodyLines (A : Arith) (cw : Char → Nat) (p : Params) (iw : Nat) (ws : List Nat) :
     List (Line (List Cell)) → Except Err (List Tagged)
   | [] => .ok []
   | .ellipsis :: rest =>
-    match bodyLines cw p iw ws rest with
+    match bodyLines A cw p iw ws rest with
     | .error e => .error e
     | .ok ls => .ok ((false, ellipsisLine p.lazy) :: ls)
   | .data label row :: rest =>
-    match formatRow cw p.strict row ws with
+    match formatRow A cw p.strict row ws with
     | .error e => .error e
     | .ok cells =>
-      match bodyLines cw p iw ws rest with
+      match bodyLines A cw p iw ws rest with
       | .error e => .error e
-      | .ok ls => .ok ((true, dataLine iw label cells) :: ls)
+      | .ok ls => .ok ((true, dataLine A iw label cells) :: ls)
 
-def colWidths (p : Params) (f : Frame) : List Nat :=
-  colWidthsGo p.showTypes p.maxCol (cutRows f.rows p.limit p.tt p.lazy) 0 f.names f.types
+def colWidths (A : Arith) (p : Params) (f : Frame) : List Nat :=
+  colWidthsGo A p.showTypes p.maxCol (cutRows A f.rows p.limit p.tt p.lazy) 0 f.names f.types
 
-def idxWidth (p : Params) (f : Frame) : Nat := indexWidth f.rows.length p.limit p.tt p.lazy f.rows
+def idxWidth (A : Arith) (p : Params) (f : Frame) : Nat :=
+  indexWidth A f.rows.length p.limit p.tt p.lazy f.rows
 
 /-- The lines `_inner()` yields (`display.py:340-417`), before truncation and colouring. -/
-def rawLines (cw : Char → Nat) (p : Params) (f : Frame) : Except Err (List Tagged) :=
-  let ws := colWidths p f
-  let iw := idxWidth p f
-  match bodyLines cw p iw ws (visibleRows f.rows p.limit p.tt p.lazy) with
+def rawLines (A : Arith) (cw : Char → Nat) (p : Params) (f : Frame) : Except Err (List Tagged) :=
+  let ws := colWidths A p f
+  let iw := idxWidth A p f
+  match bodyLines A cw p iw ws (visibleRows A f.rows p.limit p.tt p.lazy) with
   | .error e => .error e
   | .ok body =>
     .ok ([(true, border '┌' '┬' '┐' '─' iw ws), (true, headerLine T_HEAD iw f.names ws)]
@@ -438,10 +596,10 @@ def rawLines (cw : Char → Nat) (p : Params) (f : Frame) : Except Err (List Tag
       ++ [(true, border '└' '┴' '┘' '─' iw ws)])
 
 /-- What `ascii_table` joins (`display.py:419-422`), before `colorizer` substitutes the tokens. -/
-def renderLines (cw : Char → Nat) (p : Params) (f : Frame) : Except Err (List Tagged) :=
-  match rawLines cw p f with
+def renderLines (A : Arith) (cw : Char → Nat) (p : Params) (f : Frame) : Except Err (List Tagged) :=
+  match rawLines A cw p f with
   | .error e => .error e
-  | .ok ls => .ok (ls.map fun l => (l.1, truncPrintable cw l.2 p.displayWidth false))
+  | .ok ls => .ok (ls.map fun l => (l.1, truncPrintable A cw l.2 p.displayWidth false))
 
 /-- Natural printed width of every box line. -/
 def totalW : List Nat → Nat
@@ -458,5 +616,72 @@ def cwModel (c : Char) : Nat :=
   else if c.toNat < 127 then 1
   else if c = '↵' then 2
   else 1
+
+/-! ## 6. `colorizer` (`display.py:70-82`, called with `unescape=False`) -/
+
+/-- Python `str.replace(pat, rep)` for a non-empty `pat`: leftmost, non-overlapping occurrences.
+`skip` counts the characters of a matched occurrence still to be dropped. -/
+def replGo (pat rep : Str) : Nat → Str → Str
+  | _, [] => []
+  | skip + 1, _ :: cs => replGo pat rep skip cs
+  | 0, c :: cs =>
+    if pat.isPrefixOf (c :: cs) then rep ++ replGo pat rep (pat.length - 1) cs
+    else c :: replGo pat rep 0 cs
+
+def replaceAll (pat rep s : Str) : Str := replGo pat rep 0 s
+
+/-- `for k, v in COLORS.items(): record = record.replace(k, v)` (or `""` when colour is off). -/
+def colorize (table : List (Str × Str)) (on : Bool) (s : Str) : Str :=
+  table.foldl (fun acc kv => replaceAll kv.1 (if on then kv.2 else []) acc) s
+
+/-! ## 7. `markdown` (`display.py:425-456`) -/
+
+/-- A Markdown cell: whether the value is `None`, and `str(value)` (a parameter). -/
+structure MdCell where
+  isNone : Bool
+  text : Str
+  deriving Repr
+
+structure MdFrame where
+  names : List Str
+  rows : List (List MdCell)
+  deriving Repr
+
+/-- `max(list(map(len, map(str, [p for p in h if p is not None]))) + [4])`. -/
+def mdDataWidth (A : Arith) (col : List MdCell) : Nat :=
+  (col.filter (fun c => !c.isNone)).foldl (fun m c => max m c.text.length) A.mdFloor
+
+def mdColumn (t : List (List MdCell)) (i : Nat) : List MdCell := t.filterMap (fun r => r[i]?)
+
+def mdColWidthsGo (A : Arith) (maxCol : Nat) (t : List (List MdCell)) : Nat → List Str → List Nat
+  | _, [] => []
+  | i, n :: ns => A.mdColWidth n.length (mdDataWidth A (mdColumn t i)) maxCol :: mdColWidthsGo A maxCol t (i + 1) ns
+
+/-- A Markdown line, split into its index-column part and its columns part. -/
+structure MdLine where
+  idx : Str
+  cols : Str
+  deriving Repr
+
+def MdLine.text (l : MdLine) : Str := l.idx ++ l.cols
+
+def mdRowsGo (A : Arith) (iw : Nat) (ws : List Nat) : Nat → List (List MdCell) → List MdLine
+  | _, [] => []
+  | i, row :: rest =>
+    { idx := ['|'] ++ rjust (A.mdLabelPad iw) (natStr (A.mdLabel i)) ++ [' ', '|', ' '],
+      cols := joinWith [' ', '|', ' '] (zipWithTrunc (fun (c : MdCell) w => (rjust w c.text).take w) row ws) ++ [' ', '|'] }
+      :: mdRowsGo A iw ws (i + 1) rest
+
+/-- The lines `markdown(table, limit, max_column_width)` yields, for `limit ≥ 1`
+(`t = table.slice(length=limit)`; the index width is that of the whole table). -/
+def markdownLines (A : Arith) (limit maxCol : Nat) (f : MdFrame) : List MdLine :=
+  let t := dfSlice f.rows 0 (some limit)
+  let iw := A.mdIdx f.rows.length
+  let ws := mdColWidthsGo A maxCol t 0 f.names
+  [ { idx := ['|', ' ', '#'] ++ spaces (A.mdHeadPad iw) ++ ['|', ' '],
+      cols := joinWith [' ', '|', ' '] (zipWithTrunc (fun (v : Str) w => (ljust w v).take w) f.names ws) ++ [' ', '|'] },
+    { idx := ['|'] ++ List.replicate (A.mdSepLen iw) '-' ++ ['|', '-'],
+      cols := joinWith ['-', '|', '-'] (ws.map fun w => List.replicate w '-') ++ ['-', '|'] } ]
+  ++ mdRowsGo A iw ws 0 t
 
 end Display
